@@ -876,6 +876,7 @@ func (m *serverHelloMsg) unmarshal(data []byte) bool {
 			fullExt[3] = byte(len(extData))
 			copy(fullExt[4:], extData)
 			m.unknownExtensions = append(m.unknownExtensions, fullExt)
+			continue
 		}
 
 		if !extData.Empty() {
